@@ -11,34 +11,169 @@ import (
 )
 
 // carrier: a Go type that can carry an element id, with encoder/decoder expressions.
+// Id 0 is carried by the zero value of the type wherever the type has one that differs from
+// the encoding of a number (nil pointer/slice/map/interface, empty string).
 type carrier struct {
 	name string // identifier-safe
 	typ  string
 	enc  string // expression in x (int)
 	dec  string // expression in v
+	// ids the type can carry: lo..hi inclusive; lo == hi == 0 means any int of modest size
+	lo, hi  int
+	special []int // the awkward values of the type
 }
+
+var anySpecial = []int{0, -1, 1, -1000, 1 << 31, -(1 << 31) - 1}
+var runeSpecial = []int{-1, -16, 0, 0x7f, 0x80, 0xff, 0xd7ff, 0xd800, 0xdbff, 0xdc00, 0xdfff, 0xe000, 0xfffd, 0xfffe, 0xffff,
+	0x10000, 0x10ffff, 0x110000, 1<<31 - 1, -(1 << 31)}
+var byteSpecial = []int{0, 0x7f, 0x80, 0xa9, 0xbf, 0xc0, 0xc3, 0xe2, 0xf0, 0xff}
+var u16Special = []int{0, 0x7f, 0x80, 0xff, 0xd7ff, 0xd800, 0xdbff, 0xdc00, 0xdfff, 0xfffd, 0xffff}
 
 var carriers = []carrier{
-	{"int", "int", "int(x)", "int(v)"},
-	{"string", "string", "strconv.Itoa(x)", "atoi(v)"},
-	{"ptrS", "*S", "&S{A: x}", "v.A"},
-	{"S", "S", "S{A: x, B: \"b\"}", "v.A"},
-	{"slint", "[]int", "[]int{x, 7}", "v[0]"},
-	{"NI", "NI", "NI(x)", "int(v)"},
-	{"mapsi", "map[string]int", "map[string]int{\"k\": x}", "v[\"k\"]"},
-	{"arr2", "[2]int", "[2]int{x, x}", "v[0]"},
-	{"f64", "float64", "float64(x)", "int(v)"},
-	{"iface", "interface{}", "interface{}(x)", "v.(int)"},
-	{"i8", "int64", "int64(x)", "int(v)"},
-	{"pp", "**int", "ppint(x)", "**v"},
+	{name: "int", typ: "int", enc: "int(x)", dec: "int(v)"},
+	{name: "string", typ: "string", enc: "itoaz(x)", dec: "atoi(v)"},
+	{name: "ptrS", typ: "*S", enc: "pS(x)", dec: "dpS(v)"},
+	{name: "S", typ: "S", enc: "S{A: x, B: \"b\"}", dec: "v.A"},
+	{name: "slint", typ: "[]int", enc: "sl(x)", dec: "dsl(v)"},
+	{name: "NI", typ: "NI", enc: "NI(x)", dec: "int(v)"},
+	{name: "mapsi", typ: "map[string]int", enc: "mp(x)", dec: "dmp(v)"},
+	{name: "arr2", typ: "[2]int", enc: "[2]int{x, x}", dec: "v[0]"},
+	{name: "f64", typ: "float64", enc: "float64(x)", dec: "int(v)"},
+	{name: "iface", typ: "interface{}", enc: "ifc(x)", dec: "difc(v)"},
+	{name: "i8", typ: "int64", enc: "int64(x)", dec: "int(v)"},
+	{name: "pp", typ: "**int", enc: "ppint(x)", dec: "dpp(v)"},
 }
 
+// byte-like and rune-like element types, for which library shortcuts exist (strings.Map, bytes.Map,
+// string(runes), utf16.Encode, ...) that interpret the values instead of carrying them; bool (two values).
+var extraCarriers = []carrier{
+	{name: "u8", typ: "uint8", enc: "uint8(x)", dec: "int(v)", lo: 0, hi: 255, special: byteSpecial},
+	{name: "NU8", typ: "NU8", enc: "NU8(x)", dec: "int(v)", lo: 0, hi: 255, special: byteSpecial},
+	{name: "rune", typ: "rune", enc: "rune(x)", dec: "int(v)", lo: -(1 << 31), hi: 1<<31 - 1, special: runeSpecial},
+	{name: "NR", typ: "NR", enc: "NR(x)", dec: "int(v)", lo: -(1 << 31), hi: 1<<31 - 1, special: runeSpecial},
+	{name: "u16", typ: "uint16", enc: "uint16(x)", dec: "int(v)", lo: 0, hi: 65535, special: u16Special},
+	{name: "bool", typ: "bool", enc: "x != 0", dec: "b2i(v)", lo: 0, hi: 1, special: []int{0, 1}},
+}
+
+var allCarriers = append(append([]carrier{}, carriers...), extraCarriers...)
+
 // joinCarriers: Join is also exercised on byte-like element types (element ids stay below 256)
-var joinCarriers = append(append([]carrier{}, carriers...),
-	carrier{"u8", "uint8", "uint8(x)", "int(v)"},
-	carrier{"NU8", "NU8", "NU8(x)", "int(v)"},
-	carrier{"rune", "rune", "rune(x)", "int(v)"},
-)
+var joinCarriers = allCarriers[:len(carriers)+3]
+
+func (c carrier) restricted() bool { return c.hi > c.lo }
+
+func (c carrier) specials() []int {
+	if c.special != nil {
+		return c.special
+	}
+	return anySpecial
+}
+
+// randVal: an id the carrier can carry, biased to the awkward values
+func (c carrier) randVal(r *hx.Rand) int {
+	switch k := r.Intn(10); {
+	case k < 4:
+		return hx.Pick(r, c.specials())
+	case !c.restricted():
+		return r.Intn(200) - 40
+	case k < 7 && c.hi >= 126:
+		return 32 + r.Intn(95)
+	case c.hi-c.lo < 1<<16:
+		return c.lo + r.Intn(c.hi-c.lo+1)
+	default: // rune-like: mostly code points
+		return r.Intn(0x110000+0x800) - 0x400
+	}
+}
+
+// fspec: the function handed to Fmap, on ids: f x = wrap(tbl[x] or m*x+b); wrap into lo..lo+q-1 when q > 0
+// (Eval17.fn_of is the same function).
+type fspec struct {
+	m, b, q, lo int
+	tbl         [][2]int
+}
+
+func (f fspec) String() string {
+	var b strings.Builder
+	fmt.Fprintf(&b, "(%d %d %d %d", f.m, f.b, f.q, f.lo)
+	for _, kv := range f.tbl {
+		fmt.Fprintf(&b, " (%d %d)", kv[0], kv[1])
+	}
+	b.WriteByte(')')
+	return b.String()
+}
+
+const nFKinds = 8
+
+// mkF: the k-th kind of function into carrier c, given the ids it will be applied to
+func mkF(k int, c carrier, ids []int, r *hx.Rand) fspec {
+	f := fspec{m: 1}
+	if c.restricted() {
+		f.q, f.lo = c.hi-c.lo+1, c.lo
+	}
+	sp := c.specials()
+	switch k % nFKinds {
+	case 0: // identity on ids (wrapped into the type)
+	case 1: // digit value: negative below '0'
+		f.b = -48
+	case 2: // negation
+		f.m = -1
+	case 3: // constant: an awkward value
+		f.m, f.b = 0, hx.Pick(r, sp)
+	case 4: // shift so that one of the elements lands exactly on an awkward value (its neighbours next to it)
+		f.b = hx.Pick(r, sp)
+		if len(ids) > 0 {
+			f.b -= hx.Pick(r, ids)
+		}
+	case 5: // some elements map to awkward values, the others to id+1000
+		f.b = 1000
+		seen := map[int]bool{}
+		for _, x := range ids {
+			if !seen[x] && r.Intn(2) == 0 {
+				f.tbl = append(f.tbl, [2]int{x, hx.Pick(r, sp)})
+			}
+			seen[x] = true
+		}
+	case 6: // successor
+		f.b = 1
+	case 7: // constant zero value
+		f.m = 0
+	}
+	return f
+}
+
+// idsFor: n element ids for carrier c: awkward values, duplicates, and for byte/rune-like carriers the
+// bytes/runes of a string of the pool (so that valid and invalid UTF-8 sequences occur as element sequences)
+func idsFor(c carrier, n int, strs []string, r *hx.Rand) []int {
+	ids := make([]int, 0, n)
+	if c.restricted() && c.hi >= 255 && r.Intn(3) == 0 {
+		for len(ids) < n {
+			s := hx.Pick(r, strs)
+			if s == "" {
+				continue
+			}
+			if c.hi == 255 {
+				for i := 0; i < len(s) && len(ids) < n; i++ {
+					ids = append(ids, int(s[i]))
+				}
+			} else {
+				for _, x := range s {
+					if len(ids) < n && int(x) <= c.hi {
+						ids = append(ids, int(x))
+					}
+				}
+			}
+		}
+		return ids
+	}
+	for i := 0; i < n; i++ {
+		if i > 0 && r.Intn(4) == 0 {
+			ids = append(ids, ids[r.Intn(i)]) // equal elements: f is still called once for each
+		} else {
+			ids = append(ids, c.randVal(r))
+		}
+	}
+	return ids
+}
 
 func Run(cfg hx.Config) (*hx.Meta, error) {
 	meta := &hx.Meta{Property: "C17", Seed: cfg.Seed, Tier: cfg.Tier}
@@ -79,9 +214,48 @@ func Run(cfg hx.Config) (*hx.Meta, error) {
 		}
 		insts = u
 	}
+	// everything added in hardening round 4 draws from its own stream (the cases above stay what they were)
+	r2 := hx.NewRand(cfg.Seed ^ 0xC17C17C17)
+	nOld := len(insts)
+	{
+		byName := map[string]carrier{}
+		for _, c := range allCarriers {
+			byName[c.name] = c
+		}
+		seen := map[string]bool{}
+		for _, in := range insts {
+			seen[in.a.name+"/"+in.b.name] = true
+		}
+		add := func(a, b carrier) {
+			if k := a.name + "/" + b.name; !seen[k] {
+				seen[k] = true
+				insts = append(insts, inst{a, b})
+			}
+		}
+		// the pairs for which a library shortcut exists: rune/byte/string to rune/byte/string, same named type
+		for _, p := range [][2]string{{"rune", "rune"}, {"u8", "u8"}, {"u8", "rune"}, {"rune", "u8"}, {"string", "string"},
+			{"rune", "string"}, {"string", "rune"}, {"u8", "string"}, {"string", "u8"}, {"NR", "NR"}, {"NU8", "NU8"},
+			{"u16", "rune"}, {"rune", "u16"}, {"u16", "u16"}, {"bool", "bool"}, {"int", "rune"}, {"rune", "int"}, {"int", "bool"}} {
+			add(byName[p[0]], byName[p[1]])
+		}
+		if cfg.Tier == "thorough" {
+			for _, a := range allCarriers {
+				for _, b := range extraCarriers {
+					add(a, b)
+					add(b, a)
+				}
+			}
+		} else {
+			na := len(allCarriers)
+			for _, c := range extraCarriers { // each new carrier also with a random partner, both ways
+				add(c, allCarriers[r2.Intn(na)])
+				add(allCarriers[r2.Intn(na)], c)
+			}
+		}
+	}
 
 	var calls, drv strings.Builder
-	calls.WriteString("package main\n\ntype S struct {\n\tA int\n\tB string\n}\n\ntype NI int\n\ntype NU8 uint8\n\n")
+	calls.WriteString("package main\n\ntype S struct {\n\tA int\n\tB string\n}\n\ntype NI int\n\ntype NU8 uint8\n\ntype NR rune\n\n")
 	drv.WriteString(driverHeader)
 	for _, in := range insts {
 		fn := "fmap_" + in.a.name + "_" + in.b.name
@@ -89,7 +263,7 @@ func Run(cfg hx.Config) (*hx.Meta, error) {
 			fn, in.a.typ, in.b.typ, in.a.typ, in.b.typ, in.a.name, in.b.name)
 		fmt.Fprintf(&drv, `
 func init() {
-	fmapSlice[%q] = func(ids []int, isNil bool) (out, log, after []int) {
+	fmapSlice[%q] = func(ids []int, isNil bool, fn func(int) int) (out, log, after []int) {
 		var in []%s
 		if !isNil {
 			in = make([]%s, len(ids))
@@ -100,7 +274,7 @@ func init() {
 		res := %s(func(v %s) %s {
 			id := %s
 			log = append(log, id)
-			x := id + 1000
+			x := fn(id)
 			return %s
 		}, in)
 		for _, v := range res {
@@ -114,15 +288,15 @@ func init() {
 }
 `, in.a.name+"/"+in.b.name, in.a.typ, in.a.typ, in.a.typ, in.a.enc, fn, in.a.typ, in.b.typ, in.a.dec, in.b.enc, in.b.dec, in.a.typ, in.a.dec)
 	}
-	for _, b := range carriers {
+	for _, b := range allCarriers {
 		fn := "fmapstr_" + b.name
 		fmt.Fprintf(&calls, "func %s(f func(rune) %s, s string) []%s { return deriveFmapStr_%s(f, s) }\n", fn, b.typ, b.typ, b.name)
 		fmt.Fprintf(&drv, `
 func init() {
-	fmapString[%q] = func(s string) (out, log []int) {
+	fmapString[%q] = func(s string, fn func(int) int) (out, log []int) {
 		res := %s(func(r rune) %s {
 			log = append(log, int(r))
-			x := int(r) + 1000
+			x := fn(int(r))
 			return %s
 		}, s)
 		for _, v := range res {
@@ -133,7 +307,7 @@ func init() {
 }
 `, b.name, fn, b.typ, b.enc, b.dec)
 	}
-	for _, a := range joinCarriers {
+	for _, a := range allCarriers {
 		fn := "join_" + a.name
 		fmt.Fprintf(&calls, "func %s(l [][]%s) []%s { return deriveJoin_%s(l) }\n", fn, a.typ, a.typ, a.name)
 		fmt.Fprintf(&drv, `
@@ -182,7 +356,7 @@ func init() {
 	if cfg.Tier == "thorough" {
 		lens = []int{0, 1, 2, 3, 4, 5, 8, 17}
 	}
-	for _, in := range insts {
+	for _, in := range insts[:nOld] {
 		key := in.a.name + "/" + in.b.name
 		fmt.Fprintf(&cases, "fmap-slice %s nil ()\n", key)
 		ncase++
@@ -252,6 +426,88 @@ func init() {
 	fmt.Fprintf(&cases, "join-strings - nil\n")
 	ncase++
 
+	// ---- hardening round 4: f is part of the case ----
+	// Fmap over slices: every instance with functions of every kind (results that are negative, zero values,
+	// surrogates / beyond 0x10FFFF for rune-like results, bytes >= 0x80 for byte-like results), inputs with
+	// awkward and repeated elements.
+	fnLens := []int{1, 2, 3, 5, 6}
+	if cfg.Tier == "thorough" {
+		fnLens = []int{0, 1, 2, 3, 4, 5, 6, 8, 9, 13, 17, 33}
+	}
+	for ii, in := range insts {
+		key := in.a.name + "/" + in.b.name
+		fmt.Fprintf(&cases, "fmap-slice-fn %s %s;nil ()\n", key, mkF(r2.Intn(nFKinds), in.b, nil, r2))
+		fmt.Fprintf(&cases, "fmap-slice-fn %s %s;list ()\n", key, mkF(r2.Intn(nFKinds), in.b, nil, r2))
+		ncase += 2
+		for j, n := range fnLens {
+			ids := idsFor(in.a, n, strs, r2)
+			k := ii + j // every kind of function on every instance over a few runs; all kinds on each run
+			if cfg.Tier == "thorough" || in.b.restricted() && in.a.restricted() {
+				k = r2.Intn(nFKinds)
+			}
+			fmt.Fprintf(&cases, "fmap-slice-fn %s %s;list %s\n", key, mkF(k, in.b, ids, r2), hx.Ints(ids))
+			ncase++
+			meta.Count(fmt.Sprintf("fn-kind/%d", k%nFKinds))
+		}
+		if in.b.restricted() { // byte/rune-like results: every kind of function, each time
+			for k := 0; k < nFKinds; k++ {
+				ids := idsFor(in.a, 2+r2.Intn(5), strs, r2)
+				fmt.Fprintf(&cases, "fmap-slice-fn %s %s;list %s\n", key, mkF(k, in.b, ids, r2), hx.Ints(ids))
+				ncase++
+				meta.Count(fmt.Sprintf("fn-kind/%d", k))
+			}
+		}
+	}
+	// Fmap over strings: every result carrier; rune-like and byte-like results with every kind of function
+	nstr := 3
+	if cfg.Tier == "thorough" {
+		nstr = 40
+	}
+	for bi, b := range allCarriers {
+		for k := 0; k < nFKinds; k++ {
+			if !b.restricted() && cfg.Tier != "thorough" && (k+bi)%2 == 0 {
+				continue
+			}
+			for j := 0; j < nstr; j++ {
+				s := hx.Pick(r2, strs)
+				if j == 0 { // at least one string that is not empty
+					for s == "" {
+						s = hx.Pick(r2, strs)
+					}
+				}
+				rs := []rune(s)
+				ids := make([]int, len(rs))
+				for i, x := range rs {
+					ids[i] = int(x)
+				}
+				fmt.Fprintf(&cases, "fmap-string-fn %s %s;%s\n", b.name, mkF(k, b, ids, r2), hx.Bytes([]byte(s)))
+				ncase++
+			}
+		}
+	}
+	// Join over the remaining carriers
+	for _, a := range allCarriers[len(joinCarriers):] {
+		fmt.Fprintf(&cases, "join-slices %s nil\n", a.name)
+		fmt.Fprintf(&cases, "join-slices %s ()\n", a.name)
+		fmt.Fprintf(&cases, "join-slices %s (() nil ())\n", a.name)
+		ncase += 3
+		for k := 0; k < njoin; k++ {
+			parts := make([]string, r2.Intn(5))
+			for i := range parts {
+				switch r2.Intn(5) {
+				case 0:
+					parts[i] = "nil"
+				case 1:
+					parts[i] = "()"
+				default:
+					parts[i] = hx.Ints(idsFor(a, 1+r2.Intn(4), strs, r2))
+				}
+			}
+			fmt.Fprintf(&cases, "join-slices %s (%s)\n", a.name, strings.Join(parts, " "))
+			ncase++
+		}
+	}
+
 	files := map[string]string{"calls.go": calls.String(), "driver.go": drv.String(), "cases.txt": cases.String()}
 	if err := hx.WriteFiles(dir, files); err != nil {
 		return nil, err
@@ -283,9 +539,13 @@ func init() {
 	meta.ObsFiles = append(meta.ObsFiles, obs)
 	meta.Cases = ncase
 	meta.Count(fmt.Sprintf("fmap-instances=%d", len(insts)))
-	for _, l := range strings.SplitN(res.Stdout, "\n", 400) {
-		if strings.HasPrefix(l, "(fmap-string") || strings.HasPrefix(l, "(join-slices") {
-			meta.Sample(hx.Truncate(l, 200))
+	sampled := map[string]int{}
+	for _, l := range strings.Split(res.Stdout, "\n") {
+		for _, k := range []string{"(fmap-string ", "(join-slices ", "(fmap-slice-fn ", "(fmap-string-fn "} {
+			if strings.HasPrefix(l, k) && sampled[k] < 2 && len(l) > 60 {
+				sampled[k]++
+				meta.Sample(hx.Truncate(l, 200))
+			}
 		}
 	}
 	gen, _ := os.ReadFile(filepath.Join(dir, "derived.gen.go"))
@@ -333,12 +593,108 @@ import (
 	"strings"
 )
 
-var fmapSlice = map[string]func(ids []int, isNil bool) (out, log, after []int){}
-var fmapString = map[string]func(s string) (out, log []int){}
+var fmapSlice = map[string]func(ids []int, isNil bool, fn func(int) int) (out, log, after []int){}
+var fmapString = map[string]func(s string, fn func(int) int) (out, log []int){}
 var joinSlices = map[string]func(ll [][]int, nils []bool, isNil bool) (out []int, outNil bool, after [][]int){}
 
 func atoi(s string) int { n, _ := strconv.Atoi(s); return n }
-func ppint(x int) **int { p := &x; return &p }
+
+// id 0 is carried by the zero value of the type
+func itoaz(x int) string {
+	if x == 0 {
+		return ""
+	}
+	return strconv.Itoa(x)
+}
+func ppint(x int) **int {
+	if x == 0 {
+		return nil
+	}
+	p := &x
+	return &p
+}
+func dpp(v **int) int {
+	if v == nil {
+		return 0
+	}
+	return **v
+}
+func pS(x int) *S {
+	if x == 0 {
+		return nil
+	}
+	return &S{A: x}
+}
+func dpS(v *S) int {
+	if v == nil {
+		return 0
+	}
+	return v.A
+}
+func sl(x int) []int {
+	if x == 0 {
+		return nil
+	}
+	return []int{x, 7}
+}
+func dsl(v []int) int {
+	if v == nil {
+		return 0
+	}
+	return v[0]
+}
+func mp(x int) map[string]int {
+	if x == 0 {
+		return nil
+	}
+	return map[string]int{"k": x}
+}
+func dmp(v map[string]int) int {
+	if v == nil {
+		return 0
+	}
+	return v["k"]
+}
+func ifc(x int) interface{} {
+	if x == 0 {
+		return nil
+	}
+	return x
+}
+func difc(v interface{}) int {
+	if v == nil {
+		return 0
+	}
+	return v.(int)
+}
+func b2i(b bool) int {
+	if b {
+		return 1
+	}
+	return 0
+}
+
+func plus1000(x int) int { return x + 1000 }
+
+// fspec: "(m b q lo (k v) ...)" — see Eval17.fn_of
+func parseF(s string) func(int) int {
+	l := parseInts(strings.NewReplacer("(", " ", ")", " ").Replace(s))
+	m, b, q, lo := l[0], l[1], l[2], l[3]
+	tbl := map[int]int{}
+	for i := len(l) - 2; i >= 4; i -= 2 { // the first entry of a key wins
+		tbl[l[i]] = l[i+1]
+	}
+	return func(x int) int {
+		y, ok := tbl[x]
+		if !ok {
+			y = m*x + b
+		}
+		if q > 0 {
+			y = lo + (((y-lo)%q)+q)%q
+		}
+		return y
+	}
+}
 
 func ints(l []int) string {
 	var b strings.Builder
@@ -429,6 +785,12 @@ func main() {
 						fmt.Fprintf(w, "(fmap-slice %s panic)\n", strings.SplitN(rest, " ", 2)[1])
 					case "fmap-string":
 						fmt.Fprintf(w, "(fmap-string %s panic)\n", rest)
+					case "fmap-slice-fn":
+						fs := strings.SplitN(rest, ";", 2)
+						fmt.Fprintf(w, "(fmap-slice-fn (%s %s) panic)\n", fs[0], strings.SplitN(fs[1], " ", 2)[1])
+					case "fmap-string-fn":
+						fs := strings.SplitN(rest, ";", 2)
+						fmt.Fprintf(w, "(fmap-string-fn (%s %s) panic)\n", fs[0], fs[1])
 					default:
 						fmt.Fprintf(w, "(%s %s panic)\n", kind, rest)
 					}
@@ -438,12 +800,23 @@ func main() {
 			case "fmap-slice":
 				p := strings.SplitN(rest, " ", 2)
 				ids := parseInts(p[1])
-				out, log, after := fmapSlice[inst](ids, p[0] == "nil")
+				out, log, after := fmapSlice[inst](ids, p[0] == "nil", plus1000)
 				fmt.Fprintf(w, "(fmap-slice %s (ret %s %s %s))\n", ints(ids), ints(out), ints(log), ints(after))
 			case "fmap-string":
 				s := bytesOf(parseInts(rest))
-				out, log := fmapString[inst](s)
+				out, log := fmapString[inst](s, plus1000)
 				fmt.Fprintf(w, "(fmap-string %s (ret %s %s))\n", rest, ints(out), ints(log))
+			case "fmap-slice-fn":
+				fs := strings.SplitN(rest, ";", 2)
+				p := strings.SplitN(fs[1], " ", 2)
+				ids := parseInts(p[1])
+				out, log, after := fmapSlice[inst](ids, p[0] == "nil", parseF(fs[0]))
+				fmt.Fprintf(w, "(fmap-slice-fn (%s %s) (ret %s %s %s))\n", fs[0], ints(ids), ints(out), ints(log), ints(after))
+			case "fmap-string-fn":
+				fs := strings.SplitN(rest, ";", 2)
+				s := bytesOf(parseInts(fs[1]))
+				out, log := fmapString[inst](s, parseF(fs[0]))
+				fmt.Fprintf(w, "(fmap-string-fn (%s %s) (ret %s %s))\n", fs[0], fs[1], ints(out), ints(log))
 			case "range-string":
 				s := bytesOf(parseInts(rest))
 				var b strings.Builder
